@@ -2075,24 +2075,35 @@ static void setStartToken(xta_part_t part, bool newxta)
 }
 
 /**
- * Closes the scopes that a parse leaves open. The scope of a quantifier, function, block .. is opened by
- * one action of its production and closed by a later one; a text that ends in between (a label cut short
- * inside a quantifier) never reaches the closing action, and the next block of the same document or the
- * next query of the same builder would be parsed inside the abandoned scope.
+ * Brings the stacks of the builder back in order when a parse is over. The scope of a quantifier,
+ * function, block .. is opened by one action of its production and closed by a later one; a text that
+ * ends in between (a label cut short inside a quantifier) never reaches the closing action, and the next
+ * block of the same document or the next query of the same builder would be parsed inside the abandoned
+ * scope: the scopes are closed down to where they were. A parse that fails also leaves the operands it had
+ * pushed so far, on top of those that the caller is going to take by position: they are dropped.
  */
 struct parse_restorer_t
 {
     ParserBuilder* builder;
     size_t scopes;
-    explicit parse_restorer_t(ParserBuilder* builder): builder{builder}, scopes{builder->scope_depth()} {}
+    size_t operands;
+    bool failed{true};
+    explicit parse_restorer_t(ParserBuilder* builder):
+        builder{builder}, scopes{builder->scope_depth()}, operands{builder->operand_depth()}
+    {}
     parse_restorer_t(const parse_restorer_t&) = delete;
-    ~parse_restorer_t() { builder->restore_scope(scopes); }
+    ~parse_restorer_t()
+    {
+        builder->restore_scope(scopes);
+        if (failed)
+            builder->restore_operands(operands);
+    }
 };
 
 static int32_t parse_XTA(ParserBuilder *aParserBuilder,
         		bool newxta, xta_part_t part, std::string xpath)
 {
-    const auto restorer = parse_restorer_t{aParserBuilder};
+    auto restorer = parse_restorer_t{aParserBuilder};
 
     // Select syntax
     syntax = newxta ? syntax_t::NEW_GUIDING : syntax_t::OLD_GUIDING;
@@ -2117,6 +2128,7 @@ static int32_t parse_XTA(ParserBuilder *aParserBuilder,
     {
         res = -1;
     }
+    restorer.failed = (res != 0);
 
     ch = NULL;
     return res;
@@ -2124,7 +2136,7 @@ static int32_t parse_XTA(ParserBuilder *aParserBuilder,
 
 static int32_t parseProperty(ParserBuilder *aParserBuilder, const std::string& xpath)
 {
-    const auto restorer = parse_restorer_t{aParserBuilder};
+    auto restorer = parse_restorer_t{aParserBuilder};
     // Select syntax
     syntax = syntax_t::PROPERTY;
     setStartToken(S_PROPERTY, false);
@@ -2137,7 +2149,9 @@ static int32_t parseProperty(ParserBuilder *aParserBuilder, const std::string& x
     yylloc.start = yylloc.end = tracker.position;
     BEGIN(INITIAL);
 
-    return utap_parse() ? -1 : 0;
+    const int32_t res = utap_parse() ? -1 : 0;
+    restorer.failed = (res != 0);
+    return res;
 }
 
 int32_t parse_XTA(const char *str, ParserBuilder *builder,
